@@ -51,6 +51,16 @@ theorem init_wf : MgrWf Mgr.init := by
 
 theorem init_inv : MgrInv Mgr.init := ⟨init_wf, by intro c h; cases h⟩
 
+/-! ### `UpdateObjects` touches only the value objects -/
+
+@[simp] theorem updateObjects_heap (m : Mgr) : (updateObjects m).heap = m.heap := rfl
+@[simp] theorem updateObjects_reg (m : Mgr) : (updateObjects m).reg = m.reg := rfl
+@[simp] theorem updateObjects_cur (m : Mgr) : (updateObjects m).cur = m.cur := rfl
+@[simp] theorem updateObjects_tmpl (m : Mgr) : (updateObjects m).tmpl = m.tmpl := rfl
+@[simp] theorem updateObjects_obsCur (m : Mgr) : (updateObjects m).obsCur = m.obsCur := rfl
+@[simp] theorem updateObjects_obsUnit (m : Mgr) : (updateObjects m).obsUnit = m.obsUnit := rfl
+theorem updateObjects_objs (m : Mgr) : (updateObjects m).objs = m.objs.map (VObj.refresh m.curSys) := rfl
+
 /-! ### listener registration -/
 
 theorem length_setListening (h : List USys) (a : Nat) (b : Bool) : (setListening h a b).length = h.length := by
@@ -109,10 +119,10 @@ theorem getElem?_setCurrent {m : Mgr} (hw : MgrWf m) (x : Option Nat) (i : Nat) 
     (setCurrent m x).1.heap[i]? = (m.heap[i]?).map (fun o => { o with listening := decide (x = some i) }) := by
   cases x with
   | none =>
-    simp only [setCurrent, getElem?_unregisterCurrent hw]
+    simp only [setCurrent, updateObjects_heap, getElem?_unregisterCurrent hw]
     simp
   | some a =>
-    simp only [setCurrent, getElem?_setListening, getElem?_unregisterCurrent hw]
+    simp only [setCurrent, updateObjects_heap, getElem?_setListening, getElem?_unregisterCurrent hw]
     cases m.heap[i]? with
     | none => rfl
     | some o =>
@@ -393,11 +403,173 @@ theorem removeCategory_wf {m : Mgr} (hw : MgrWf m) (a : Nat) (c : Sym) : MgrWf (
     · exact set_wf hw ho rfl rfl
     · exact hw
 
+
+/-! ### value objects, observers, caption / read-only flag -/
+
+theorem with_objs_wf {m : Mgr} (hw : MgrWf m) (l : List VObj) : MgrWf { m with objs := l } :=
+  ⟨hw.null, hw.reg_own, hw.ids_nodup, hw.cur_valid, hw.listen⟩
+
+theorem with_obs_wf {m : Mgr} (hw : MgrWf m) (a b : Bool) : MgrWf { m with obsCur := a, obsUnit := b } :=
+  ⟨hw.null, hw.reg_own, hw.ids_nodup, hw.cur_valid, hw.listen⟩
+
+theorem updateObjects_wf {m : Mgr} (hw : MgrWf m) : MgrWf (updateObjects m) := with_objs_wf hw _
+
+theorem registerNew_wf {m : Mgr} (hw : MgrWf m) (c u : Sym) : MgrWf (registerNew m c u).mgr := with_objs_wf hw _
+
+theorem registerAgain_wf {m : Mgr} (hw : MgrWf m) (i : Nat) : MgrWf (registerAgain m i).mgr := by
+  unfold registerAgain
+  split
+  · exact hw
+  · split
+    · exact with_objs_wf hw _
+    · exact hw
+
+theorem killObj_wf {m : Mgr} (hw : MgrWf m) (i : Nat) : MgrWf (killObj m i).mgr := by
+  unfold killObj
+  split
+  · exact hw
+  · exact with_objs_wf hw _
+
+theorem objSetUnit_wf {m : Mgr} (hw : MgrWf m) (i : Nat) (u : Sym) : MgrWf (objSetUnit m i u).mgr := by
+  unfold objSetUnit
+  split
+  · exact hw
+  · split
+    · exact with_objs_wf hw _
+    · exact hw
+
+theorem setCaption_wf {m : Mgr} (hw : MgrWf m) (a : Nat) (cap : Sym) : MgrWf (setCaption m a cap).mgr := by
+  unfold setCaption
+  split
+  · exact hw
+  · rename_i o ho
+    exact set_wf hw ho rfl rfl
+
+theorem setReadOnly_wf {m : Mgr} (hw : MgrWf m) (a : Nat) (b : Bool) : MgrWf (setReadOnly m a b).mgr := by
+  unfold setReadOnly
+  split
+  · exact hw
+  · rename_i o ho
+    exact set_wf hw ho rfl rfl
+
+/-- the calls on value objects, observers and the flags of a unit system: they never touch `_current`, the
+registry or the template and invoke no callback -/
+def Op.isAux : Op → Bool
+  | .register .. | .registerAgain .. | .kill .. | .objSetUnit .. | .updateObjects | .resetInstance
+  | .observeCurrent | .observeUnit | .setCaption .. | .setReadOnly .. => true
+  | _ => false
+
+theorem step_aux (db : Db) (m : Mgr) {op : Op} (ha : op.isAux = true) :
+    (step db m op).mgr.cur = m.cur ∧ (step db m op).mgr.reg = m.reg ∧ (step db m op).mgr.tmpl = m.tmpl ∧
+    (step db m op).log = [] := by
+  cases op <;> simp only [Op.isAux, Bool.false_eq_true] at ha <;>
+    simp only [step, registerNew, registerAgain, killObj, objSetUnit, resetInstance, setCaption, setReadOnly]
+  all_goals (repeat' split) <;> first | exact ⟨rfl, rfl, rfl, rfl⟩ | simp
+
+theorem step_aux_wf (db : Db) {m : Mgr} (hw : MgrWf m) {op : Op} (ha : op.isAux = true) : MgrWf (step db m op).mgr := by
+  cases op <;> simp only [Op.isAux, Bool.false_eq_true] at ha
+  · exact registerNew_wf hw _ _
+  · exact registerAgain_wf hw _
+  · exact killObj_wf hw _
+  · exact objSetUnit_wf hw _ _
+  · exact updateObjects_wf hw
+  · exact with_obs_wf hw _ _
+  · exact with_obs_wf hw true m.obsUnit
+  · exact with_obs_wf hw m.obsCur true
+  · exact setCaption_wf hw _ _
+  · exact setReadOnly_wf hw _ _
+
+/-! #### how the manager rewrites one object -/
+
+theorem update_alive (s : USys) (o : VObj) : (o.update s).alive = o.alive := by
+  unfold VObj.update
+  split
+  · split <;> rfl
+  · rfl
+
+theorem update_wraps (s : USys) (o : VObj) : (o.update s).wraps = o.wraps := by
+  unfold VObj.update
+  split
+  · split <;> rfl
+  · rfl
+
+theorem update_cat (s : USys) (o : VObj) : (o.update s).cat = o.cat := by
+  unfold VObj.update
+  split
+  · split <;> rfl
+  · rfl
+
+theorem refresh_alive (s : Option USys) (o : VObj) : (VObj.refresh s o).alive = o.alive := by
+  cases s <;> simp [VObj.refresh, update_alive]
+
+theorem refresh_wraps (s : Option USys) (o : VObj) : (VObj.refresh s o).wraps = o.wraps := by
+  cases s <;> simp [VObj.refresh, update_wraps]
+
+theorem refresh_cat (s : Option USys) (o : VObj) : (VObj.refresh s o).cat = o.cat := by
+  cases s <;> simp [VObj.refresh, update_cat]
+
+/-- bringing an object to a system twice is the same as once -/
+theorem update_idem (s : USys) (o : VObj) : (o.update s).update s = o.update s := by
+  unfold VObj.update
+  cases ha : o.alive with
+  | false => simp [ha]
+  | true =>
+    cases hd : s.getDefaultUnit o.cat with
+    | none => simp [ha, hd]
+    | some u => simp [hd]
+
+theorem refresh_idem (s : Option USys) (o : VObj) : VObj.refresh s (VObj.refresh s o) = VObj.refresh s o := by
+  cases s with
+  | none => rfl
+  | some s => exact update_idem s o
+
+/-! #### weak references: `_object_refs` holds wraps of live objects only -/
+
+/-- a live registered object has at least one wrap, a dead one has none left -/
+def VObj.ok (o : VObj) : Prop := (o.alive = true → 1 ≤ o.wraps) ∧ (o.alive = false → o.wraps = 0)
+
+/-- "an object that died is dropped" as a state invariant -/
+def ObjsWf (m : Mgr) : Prop := ∀ o ∈ m.objs, o.ok
+
+theorem refresh_ok {s : Option USys} {o : VObj} (h : o.ok) : (VObj.refresh s o).ok := by
+  unfold VObj.ok at h ⊢
+  rw [refresh_alive, refresh_wraps]; exact h
+
+theorem init_objsWf : ObjsWf Mgr.init := by intro o h; cases h
+
+theorem objsWf_map_refresh {l : List VObj} (s : Option USys) (h : ∀ o ∈ l, o.ok) :
+    ∀ o ∈ l.map (VObj.refresh s), o.ok := by
+  intro o ho
+  obtain ⟨o', ho', rfl⟩ := List.mem_map.mp ho
+  exact refresh_ok (h o' ho')
+
+theorem objsWf_set {l : List VObj} (h : ∀ o ∈ l, o.ok) (i : Nat) {o' : VObj} (ho' : o'.ok) :
+    ∀ o ∈ l.set i o', o.ok := by
+  intro o ho
+  rcases List.mem_or_eq_of_mem_set ho with h1 | h1
+  · exact h o h1
+  · subst h1; exact ho'
+
+theorem setCurrent_objs (m : Mgr) (x : Option Nat) :
+    (setCurrent m x).1.objs = m.objs.map (VObj.refresh (setCurrent m x).1.curSys) := by
+  cases x <;> rfl
+
+theorem setCurrent_obsCur (m : Mgr) (x : Option Nat) : (setCurrent m x).1.obsCur = m.obsCur := by
+  cases x <;> rfl
+
+theorem setCurrent_obsUnit (m : Mgr) (x : Option Nat) : (setCurrent m x).1.obsUnit = m.obsUnit := by
+  cases x <;> rfl
+
+theorem setCurrent_objsWf {m : Mgr} (h : ObjsWf m) (x : Option Nat) : ObjsWf (setCurrent m x).1 := by
+  unfold ObjsWf
+  rw [setCurrent_objs]
+  exact objsWf_map_refresh _ h
+
 /-- the calls that only read -/
 def Op.isQuery : Op → Bool
   | .getDefaultUnit .. | .sysEq .. | .convertToCurrent .. | .convertScalarToCurrent ..
   | .getCategoryDefaultUnit .. | .getQuantityDefaultUnit .. | .getNewId | .getById .. | .getUnitSystems
-  | .getCurrent => true
+  | .getCurrent | .sysEqOther .. => true
   | _ => false
 
 /-- a reading call changes nothing and notifies nobody -/
@@ -823,5 +995,196 @@ theorem set_dictsWf {m : Mgr} (hd : DictsWf m) (a : Nat) {o' : USys} (h : (dkeys
     · cases ho
   · exact hd.heap i o ho
 
+
+/-- The unit the manager gives a registered object when it brings the objects to the current system
+(state `m`): the current system's default unit of the object's category — if some system is current, the
+object is alive and there is such a default; otherwise the object keeps its unit (in particular while
+NO system is current, whatever the null system holds). -/
+def specUnit (m : Mgr) (o : VObj) : Sym :=
+  if o.alive then
+    match m.cur with
+    | none => o.unit
+    | some _ =>
+      match m.currentDefault o.cat with
+      | some u => u
+      | none => o.unit
+  else o.unit
+
+/-- the model's `UpdateObjects` loop body computes exactly that -/
+theorem refresh_curSys_spec {m : Mgr} (hw : MgrWf m) (o : VObj) :
+    VObj.refresh m.curSys o = { o with unit := specUnit m o } := by
+  unfold specUnit Mgr.curSys
+  cases hc : m.cur with
+  | none => cases o; simp [VObj.refresh]
+  | some c =>
+    have hlt := hw.cur_valid c hc
+    have hs : m.heap[c]? = some m.heap[c] := List.getElem?_eq_getElem hlt
+    simp only [hs, VObj.refresh, VObj.update, Mgr.currentDefault, Mgr.currentAddr, hc]
+    cases ha : o.alive with
+    | false => cases o; simp_all
+    | true =>
+      cases hd : (m.heap[c]).getDefaultUnit o.cat with
+      | none => cases o; simp_all
+      | some u => simp
+
+def Event.isCurrent : Event → Bool
+  | .current _ => true
+  | _ => false
+
+/-- a call that ended in `SetCurrent(x)`: the objects were brought to the new current system -/
+theorem follow_of_setCurrent {m m0 : Mgr} {x : Option Nat} {r : Res} (hw' : MgrWf r.mgr) (ho : m0.objs = m.objs)
+    (hm : r.mgr = (setCurrent m0 x).1) (hl : r.log = (setCurrent m0 x).2) :
+    r.mgr.objs =
+      if r.log.any Event.isCurrent then m.objs.map (fun o => { o with unit := specUnit r.mgr o }) else m.objs := by
+  have hfun : (fun o => ({ o with unit := specUnit r.mgr o } : VObj)) = VObj.refresh r.mgr.curSys := by
+    funext o; exact (refresh_curSys_spec hw' o).symm
+  rw [hfun]
+  have hany : r.log.any Event.isCurrent = true := by rw [hl, setCurrent_log]; rfl
+  simp only [hany, ↓reduceIte]
+  rw [hm, setCurrent_objs, ho]
+
+/-- a call during which `on_current` was not invoked and that left the objects alone -/
+theorem follow_of_silent {m : Mgr} {r : Res} (ho : r.mgr.objs = m.objs) (hl : r.log.any Event.isCurrent = false) :
+    r.mgr.objs =
+      if r.log.any Event.isCurrent then m.objs.map (fun o => { o with unit := specUnit r.mgr o }) else m.objs := by
+  simp [hl, ho]
+
+theorem curRegistered_of_eq {m m' : Mgr} (hc : m'.cur = m.cur) (hr : m'.reg = m.reg) (h : CurRegistered m) :
+    CurRegistered m' := by
+  intro c h'
+  rw [hc] at h'
+  rw [hr]
+  exact h c h'
+
+/-- a rejected call on a value object / a flag changes nothing -/
+theorem step_aux_rejected (db : Db) (m : Mgr) {op : Op} (ha : op.isAux = true) {e : ErrKind}
+    (h : (step db m op).out = .error e) : (step db m op).mgr = m := by
+  cases op <;> simp only [Op.isAux, Bool.false_eq_true] at ha
+  case register c u => simp [step, registerNew] at h
+  case registerAgain i =>
+    simp only [step, registerAgain] at h ⊢
+    split
+    · rfl
+    · rename_i o ho
+      simp only [ho] at h
+      split
+      · rename_i hal; simp [hal] at h
+      · rfl
+  case kill i =>
+    simp only [step, killObj] at h ⊢
+    split
+    · rfl
+    · rename_i o ho; simp [ho] at h
+  case objSetUnit i u =>
+    simp only [step, objSetUnit] at h ⊢
+    split
+    · rfl
+    · rename_i o ho
+      simp only [ho] at h
+      split
+      · rename_i hal; simp [hal] at h
+      · rfl
+  case updateObjects => simp [step] at h
+  case resetInstance => simp [step, resetInstance] at h
+  case observeCurrent => simp [step] at h
+  case observeUnit => simp [step] at h
+  case setCaption a cap =>
+    simp only [step, setCaption] at h ⊢
+    split
+    · rfl
+    · rename_i o ho; simp [ho] at h
+  case setReadOnly a b =>
+    simp only [step, setReadOnly] at h ⊢
+    split
+    · rfl
+    · rename_i o ho; simp [ho] at h
+
+theorem set_same_mapping_dictsWf {m : Mgr} (hd : DictsWf m) {a : Nat} {o o' : USys} (ho : m.heap[a]? = some o)
+    (hm : o'.mapping = o.mapping) : DictsWf { m with heap := m.heap.set a o' } :=
+  set_dictsWf hd a (by rw [hm]; exact hd.heap a o ho)
+
+theorem step_aux_dictsWf (db : Db) {m : Mgr} (hd : DictsWf m) {op : Op} (ha : op.isAux = true) :
+    DictsWf (step db m op).mgr := by
+  cases op <;> simp only [Op.isAux, Bool.false_eq_true] at ha
+  case register c u => exact ⟨hd.heap, hd.tmpl⟩
+  case registerAgain i =>
+    simp only [step, registerAgain]
+    split
+    · exact hd
+    · split
+      · exact ⟨hd.heap, hd.tmpl⟩
+      · exact hd
+  case kill i =>
+    simp only [step, killObj]
+    split
+    · exact hd
+    · exact ⟨hd.heap, hd.tmpl⟩
+  case objSetUnit i u =>
+    simp only [step, objSetUnit]
+    split
+    · exact hd
+    · split
+      · exact ⟨hd.heap, hd.tmpl⟩
+      · exact hd
+  case updateObjects => exact ⟨hd.heap, hd.tmpl⟩
+  case resetInstance => exact ⟨hd.heap, hd.tmpl⟩
+  case observeCurrent => exact ⟨hd.heap, hd.tmpl⟩
+  case observeUnit => exact ⟨hd.heap, hd.tmpl⟩
+  case setCaption a cap =>
+    simp only [step, setCaption]
+    split
+    · exact hd
+    · rename_i o ho; exact set_same_mapping_dictsWf hd ho rfl
+  case setReadOnly a b =>
+    simp only [step, setReadOnly]
+    split
+    · exact hd
+    · rename_i o ho; exact set_same_mapping_dictsWf hd ho rfl
+
+theorem step_aux_objsWf (db : Db) {m : Mgr} (h : ObjsWf m) {op : Op} (ha : op.isAux = true) :
+    ObjsWf (step db m op).mgr := by
+  cases op <;> simp only [Op.isAux, Bool.false_eq_true] at ha
+  case register c u =>
+    intro o ho
+    simp only [step, registerNew, List.mem_append, List.mem_singleton] at ho
+    rcases ho with ho | rfl
+    · exact h o ho
+    · exact refresh_ok ⟨fun _ => Nat.le_refl 1, fun hf => by cases hf⟩
+  case registerAgain i =>
+    simp only [step, registerAgain]
+    split
+    · exact h
+    · rename_i o ho
+      split
+      · rename_i hal
+        apply objsWf_set h
+        apply refresh_ok
+        exact ⟨fun _ => by simp, fun hf => by simp [hal] at hf⟩
+      · exact h
+  case kill i =>
+    simp only [step, killObj]
+    split
+    · exact h
+    · apply objsWf_set h
+      exact ⟨fun hf => (by cases hf), fun _ => rfl⟩
+  case objSetUnit i u =>
+    simp only [step, objSetUnit]
+    split
+    · exact h
+    · rename_i o ho
+      split
+      · apply objsWf_set h
+        exact h o (List.mem_of_getElem? ho)
+      · exact h
+  case updateObjects => exact objsWf_map_refresh _ h
+  case resetInstance => exact h
+  case observeCurrent => exact h
+  case observeUnit => exact h
+  case setCaption a cap =>
+    simp only [step, setCaption]
+    split <;> exact h
+  case setReadOnly a b =>
+    simp only [step, setReadOnly]
+    split <;> exact h
 
 end Barril.Mgr
